@@ -1,6 +1,7 @@
 package main
 
 import (
+	"go/types"
 	"fmt"
 	"strings"
 
@@ -12,13 +13,20 @@ func init() {
 		ID: "C37",
 		Decides: "(R37.1) lookup: Get hands out a member only together with found=true and answers not-found only if the address table has no (non-nil) entry; every address-table access keys on memberid(address) and every per-node access on the node address string; " +
 			"(R37.2) join: the per-node list written by Set derives from the node's current list, keeps an existing entry only if its member id differs from the joining member's, and appends the joining member once, after that filter; the address entry and the per-node list are written in one critical section of the address table; " +
-			"(R37.4) every join and leave of the pool runs under the memberlist's joinedLock (the per-node list is read-modify-written inside the address shard's lock only); (R37.3) leave: Remove rewrites the node's list keeping exactly the entries whose member id differs from the leaving member's, removes the node entry only if nothing is left, and touches the per-node table only if the address entry was found.",
+			"(R37.4) every join and leave of the pool runs under the memberlist's joinedLock (the per-node list is read-modify-written inside the address shard's lock only); (R37.3) leave: Remove rewrites the node's list keeping exactly the entries whose member id differs from the leaving member's, removes the node entry only if nothing is left, and touches the per-node table only if the address entry was found.; (R37.e) Empty clears every table of the pool",
 		NotDecided: "linearizability of the two tables together (the per-node table is updated inside the address table's shard lock, other shards run in parallel); Empty() racing with Set().",
 		Run:        runC37,
 	})
 }
 
 func runC37(c *Ctx) {
+	// R37.e: Empty (Leave) clears every table of the pool
+	c.Rule("R37.e", "Exhaustive")
+	if fn := c.Need("network/quicmemberlist.(*membersPool).Empty"); fn != nil {
+		for _, f := range structFieldNames(fn.Signature.Recv().Type()) {
+			c.Exists(fn, "Empty clears the table "+f, c.CallsD(fn, "m."+f+".Empty()"), 1)
+		}
+	}
 	const MP = "network/quicmemberlist.(*membersPool)."
 	// R37.1 --------------------------------------------------------------------------------------
 	c.Rule("R37.1", "Lookup")
@@ -199,4 +207,17 @@ func runC37(c *Ctx) {
 	if fn := c.Need(MP + "MembersLen"); fn != nil {
 		c.Exists(fn, "the member count of a node is the length of its list", c.ReturnsD(fn, 0, "len(m.members.Value(node.String())#0)"), 1)
 	}
+}
+
+// structFieldNames: the field names of the (pointed-to) named struct type t.
+func structFieldNames(t types.Type) []string {
+	st, ok := derefNamed(t).Underlying().(*types.Struct)
+	if !ok {
+		return nil
+	}
+	var out []string
+	for i := 0; i < st.NumFields(); i++ {
+		out = append(out, st.Field(i).Name())
+	}
+	return out
 }
